@@ -8,13 +8,12 @@ HARNESSES = [dict(name="ha", pkg="./pkg/ha/", test="TestVerifC11", timeout=900,
 # repaired first (the theorems are proved for it); one variant per recorded defect; defective = all of them together
 # repaired = /repo HEAD for everything that is fixed + dropping of messages not above lastSeq (the theorems
 # C11_converges / C11_pools_exact are proved for it); d_stale = Model.head = /repo HEAD exactly: the receiver never
-# compares sequence numbers; d_head = Model.head = /repo HEAD: all open findings (stale redelivery, missed DELETE after
-# a bulk sync, sender steps not atomic).  Variants for fixed findings are gone: a regression is a VIOLATION.
+# compares sequence numbers; d_head = Model.head = /repo HEAD: both open findings (stale redelivery, bulk sync of a
+# lagging standby).  Variants for fixed findings are gone: a regression is a VIOLATION.
 VARIANTS = ["repaired", "d_stale", "d_head"]
 # known-finding signatures
-SIG = {"stale": "stale-redelivery-applied", "lagdel": "bulk-sync-lagging-standby-not-converging",
-       "race": "sender-seq-push-not-atomic"}
-RULE = ("conc: HandleEvent called by concurrent handlers stopped by a gate inside sessionToCheckpoint (handshakes, no sleeps): all interleavings of start/completion of 2 and 3 handlers for capacities 2 and 4, random ones for 3-5 handlers mixed with uninterrupted events; monitors ring consecutive, stream order = sequence order, Range exact for every (from,to) in 0..n+1. "
+SIG = {"stale": "stale-redelivery-applied", "lagdel": "bulk-sync-lagging-standby-not-converging"}
+RULE = ("conc: HandleEvent called by concurrent handlers stopped by a gate inside sessionToCheckpoint (handshakes, no sleeps): all interleavings of start/completion of 2 and 3 handlers for capacities 2 and 4, random ones for 3-5 handlers mixed with uninterrupted events and role transitions (SetActive false/true: failover, failback, repeated activation, also while a handler is stopped); monitors ring consecutive, stream order = sequence order, Range exact for every (from,to) in 0..n+1. "
         "rng: ring capacities {1..9, 16, 0 and -1 (=10000)} x pushed runs of consecutive uint64 sequence numbers (fresh, wrapped "
         "1..3 times, starting at 1 / large / just below 2^63), queried with every (from,to) in a window around the retained "
         "range plus empty, inverted, far-away and (class 'huge') >= 2^63 bounds; every answer is held by the caller and read again after each of cap+1 further pushes. "
@@ -414,12 +413,22 @@ def gen_conc(rng, tier, out):
         for cap in (2, 4):
             for ops in interleavings(list(range(1, n + 1)), [], []):
                 emit(cap, ops)
+    # role transitions of the sender (Manager.driveSync -> SetActive) between and during events: failover, failback,
+    # repeated activation; counters and rings live as long as the process
+    for cap in (2, 3, 8):
+        for pre in (1, 3, 5):
+            for post in (1, 2, 4):
+                for mid in (["A:0", "A:1"], ["A:0", "E:9", "A:1"], ["A:1"], ["A:0", "A:0", "A:1", "A:1"],
+                            ["H:7:7", "A:0", "F:7", "A:1"], ["A:0", "H:7:7", "A:1", "F:7"]):
+                    emit(cap, ["E:%d" % (i + 1) for i in range(pre)] + mid + ["E:%d" % (i + 1) for i in range(post)])
     for _ in range(60 if tier == "quick" else 600):
         n = rng.randint(3, 5)
         pending, started, ops = list(range(1, n + 1)), [], []
         while pending or started:
             x = rng.random()
-            if pending and x < 0.4:
+            if x < 0.12:
+                ops.append("A:%d" % rng.randint(0, 1))
+            elif pending and x < 0.4:
                 i = pending.pop(0)
                 started.append(i)
                 ops.append("H:%d:%d" % (i, i))
@@ -429,7 +438,7 @@ def gen_conc(rng, tier, out):
                 ops.append("F:%d" % i)
             else:
                 ops.append("E:%d" % rng.randint(6, 9))
-        emit(rng.choice([1, 2, 3, 8]), ops)
+        emit(rng.choice([1, 2, 3, 8]), ops + ["A:1", "E:5"])
 
 
 def gen_cases(rng, tier, budget):
@@ -465,7 +474,7 @@ def classify(case, impl, model):
     if case.startswith("conc"):
         bad = [m for m in ("ringconsec", "streamorder", "rangeexact") if (m + "=bad") in impl and (m + "=ok") in model]
         if bad:
-            return "P", ("concurrent HandleEvent calls: %s violated (ring/stream: %s)" %
+            return "P", ("sender (concurrent handlers / role transitions): %s violated (ring/stream: %s)" %
                          (", ".join(bad), " ".join(impl.split()[1:3])))
         return "G", "sender state differs from the model: impl=%r model=%r" % (impl[:200], model[:200])
     if case.startswith("rng"):
@@ -547,8 +556,6 @@ def signature(case, impl, models):
     """Known-finding signature = input class of the case, and only when the case text really contains the trigger."""
     t = case.split()
     mode = t[1]
-    if t[0] == "conc":
-        return SIG["race"] if _overlap(case) else None
     if t[0] != "hist":
         return None
     trig = _triggers(case)
